@@ -68,4 +68,14 @@ CHECKS = {
             "assumptions": SEQ_ASSUME + ["single caller goroutine (the multi-goroutine 'never interleaved' clause is covered by C04's transition-nesting oracle under all schedules)", "handler faults are out of scope (C08)"],
         },
     },
+    "C08": {
+        "pkg": "harness/c08",
+        "level": "fault_enumeration",
+        "budget_s": {"quick": 200, "thorough": 2400},
+        "meta": {
+            "rule": "fault enumeration: base transitions = every state-changing (state, mutation) of BFS over 2-state schemas (stride 13 quick / all thorough) + non-auto families + one Auto schema, handlers bound for every name incl. Exception handlers; for every handler call position of the step x {panic(error), panic(string), stall 3xHandlerTimeout} one run in its own synctest bubble, ordered pairs (second fault anywhere later, incl. the Exception transition's handlers) on every 32nd base (all in thorough), every 5th base also from a machine already in Exception, deadline stall / two bindings / ExceptionHandler embedding at first and last position; distinct_nontrivial = distinct (handler name, fault kind, #faults) shapes that fired",
+            "nontrivial_set": "fault_shapes",
+            "assumptions": ["faults are injected by the harness' own logging handlers; one bubble per case (fake time, HandlerTimeout 100ms, HandlerDeadline 2s, HandlerBackoff 3s)", "rollback exactness is demanded for single faults, one binding, schemas without Auto states, judged on the state seen by the transition that follows the faulty one; re-entered Multi states are ignored", "sequences of faults: containment only (no escape, no wedge, parity == activity)", "after a deadline stall the probe runs after the documented backoff"],
+        },
+    },
 }
